@@ -8,6 +8,7 @@ from lib.gallina import gZ, gnat, glist, gopt, gstr, gpair, gbool
 from props.c14 import spec_match, has_class_pattern
 
 ID = "C10"
+LOG_LEVEL_INVARIANT = True      # (harness/vp.py: a sample of the cases again with logging at DEBUG; same observables)
 RUN_MODULE = "RunC10"
 DRIVER = "lookup_driver.py"
 SHARD = 250
